@@ -317,6 +317,8 @@ def build(spec: dict):
     maximize = bool(spec.get("maximize", False))
     rec = Recorder(spec.get("fn", "sphere"), bounds, maximize, max_consults=int(spec.get("max_consults", 800)))
     rec.reports = bool(spec.get("reports", False))
+    if spec.get("fns"):
+        rec.fns = list(spec["fns"])
     rec.dump_at = spec.get("dump_at")
     script = spec.get("script")
     levels = []
@@ -325,7 +327,8 @@ def build(spec: dict):
         objective = LevelObjective(rec, li)
         if spec.get("objective_form") == "lambda":
             objective = (lambda o: (lambda x: o(x)))(objective)       # objectives given as lambdas must survive a snapshot
-        p = FunctionProblem(objective, bounds=bounds, maximize=maximize)
+        p = FunctionProblem(objective, bounds=bounds, maximize=maximize, use_cache=bool(spec.get("use_cache", False)))
+        p._verif_level = li              # harness tag: which level's objective this problem evaluates
         for w in spec.get("wrappers", []):
             if w[0] == "count":
                 p = EvalCountingProblem(p)
@@ -383,4 +386,5 @@ def cfg_summary(spec: dict) -> dict:
             "wcount": sum(1 for w in spec.get("wrappers", []) if w[0] in ("count", "cutoff", "precision")),
             "idlecheck": int(bool(spec.get("idlecheck", True))),
             "manual": int((spec.get("drive") or ["run"])[0] != "run"),
+            "cache": int(bool(spec.get("use_cache", False))),
             "name": spec.get("name", "")}
